@@ -261,6 +261,8 @@ Lemma timely_head np out e tau r :
     | EPing, None => tau = np /\ np' = np + ping_period /\ out' = Some tau
     | EPong, Some p => p <= tau /\ np' = np /\ out' = None
     | EPong, None => np - ping_period <= tau /\ np' = np /\ out' = None
+    | EPongUnsolicited, None => np - ping_period <= tau /\ np' = np /\ out' = None
+    | EPongUnsolicited, Some p => p <= tau /\ np' = np /\ out' = out
     | EPing, Some _ => False
     | _, _ => np' = np /\ out' = out
     end.
@@ -475,7 +477,7 @@ Proof. reflexivity. Qed.
 Lemma stale_deadline_kills_quiet_connection :
   exists t f evs h a,
     timely (t + ping_period) None (evs ++ [(EDataIn, h)]) = true /\
-    status (run_v false (start t f) evs h) = Closed WriteTimeout a /\ a + 200 * ns_per_s < f /\
+    status (run_v false false (start t f) evs h) = Closed WriteTimeout a /\ a + 200 * ns_per_s < f /\
     status (run (start t f) evs h) = Open.
 Proof.
   exists 1700000000000000000, (1700000000000000000 + 300 * ns_per_s),
@@ -487,5 +489,22 @@ Qed.
 (* the variant is harmless only while no data write has ever happened or the last one is recent *)
 Lemma stale_deadline_needs_old_write c tau :
   status c = Open -> write_fails c tau = false ->
-  status (apply_ev_v false c EPing tau) = Open.
+  status (apply_ev_v false false c EPing tau) = Open.
 Proof. intros Ho Hw. unfold apply_ev_v. rewrite Ho, Hw. reflexivity. Qed.
+
+(* The pong handler must accept every pong.  In the variant where it rejects a pong that does not
+   echo the relay's ping, a client that reads and answers pings but also sends an unsolicited pong
+   as a one-way heartbeat (RFC 6455 5.5.3) is dropped by the relay at once, with a valid token. *)
+Lemma strict_pong_kills_heartbeat_client :
+  exists t f evs h a,
+    timely (t + ping_period) None (evs ++ [(EDataIn, h)]) = true /\
+    status (run_v true true (start t f) evs h) = Closed PongRejected a /\ a + 200 * ns_per_s < f /\
+    status (run (start t f) evs h) = Open.
+Proof.
+  exists 1700000000000000000, (1700000000000000000 + 300 * ns_per_s),
+         [(EClientPing, 1700000000000000000 + ns_per_s); (EPongUnsolicited, 1700000000000000000 + 2 * ns_per_s);
+          (EPing, 1700000000000000000 + ping_period); (EPongUnsolicited, 1700000000000000000 + ping_period + ns_per_s);
+          (EPong, 1700000000000000000 + ping_period + 2 * ns_per_s)],
+         (1700000000000000000 + 57 * ns_per_s), (1700000000000000000 + 2 * ns_per_s).
+  vm_compute. repeat split; congruence.
+Qed.
